@@ -166,9 +166,31 @@ CLAIMED = {
          "statically only; assumptions A1-A3 (values read from properties/slots/instance dict carry no truthy _rpc_method; vars(obj) within the scanned names) are checked each run. "
          "The defect found (property getters evaluated before the marker check) was repaired by a fix: commit.",
     technique="MRO member-table model, generic theorem + per-class reflection, translator, differential probing of the real handlers"),
+ "C07": dict(category="proof", design_ref="7 (C07)",
+    text="15 Coq theorems (all closed) on an executable transition system of SignalManager (one handler or lock region per step; four tables keyed by the real dot-joined strings and tested "
+         "with startswith; delivery log; FIFO channels between two full contexts): for every input sequence of a context (any interleaving of threads at lock-region granularity, any peer "
+         "messages) each publication gives exactly one record with the published fields to exactly the receivers stored for that signal when the snapshot is taken; at most one message per "
+         "subscribed peer (exactly one unless the peer vanished) and on delivery exactly one record per receiver subscribed there; no record of a publication snapshotted after unsubscribe; "
+         "per-thread order (append-only logs, FIFO channels); valid names contain no '.', dot-joined keys are injective and the prefix tests select exactly the intended entries. "
+         "Tie: H2 message-level simulation of real SignalManager instances on stub contexts with harness-owned FIFO queues (exhaustive short and random histories on 1-3 contexts, other "
+         "operations run re-entrantly at every lock-free point of a running publish), compared label by label with the model; real QMI_Context thread schedules under dsched; independent "
+         "event-log oracle (each receiver queue = projection of the global publish/subscribe log).",
+    note="Trusted: Coq kernel+vm_compute; hand model; H2 harness network and dsched; fresh request ids; atomic lock regions; honest peers. End-to-end remote order is the composition of "
+         "C07_channel_fifo and C07_deliver_exactly_once, not one lemma. Queue overflow (C09) and pickling are outside.",
+    technique="inductive invariants over an executable transition system; H2 message simulation + deterministic scheduler"),
+ "C08": dict(category="proof", design_ref="7 (C08)",
+    text="12 Coq theorems (all closed). Main theorem C08_quiescent, proved in full for two complete contexts and every finite history (subscribe, unsubscribe incl. re-subscribe while the "
+         "unsubscribe is pending, publish, remove object, deliver, connect, close at any position, each end closing on its own): whenever nothing is in flight and no request is outstanding, "
+         "a context lists the peer as subscriber of a signal exactly when some receiver there is subscribed — via a per-signal protocol invariant proved inductive over the two-node system. "
+         "Also: table consistency on one node for arbitrary (even hostile) inputs; a reply always answers a pending request; unknown publisher => subscription error and nothing stored at "
+         "either end; cleanup after object removal and after peer loss at both ends; every blocked subscribe is accounted for through every step and returns once channels are empty. "
+         "Tie: as C07 (about 2400 cases per run, probe publications at quiescent points, 900 schedules of blocked subscribers while the peer disconnects / stops / removes the publisher).",
+    note="Trusted: as C07. The theorem covers two contexts at handler granularity; three-context histories are covered by correspondence and oracle only; a reconnect is assumed only after both "
+         "ends have closed. One defect below handler granularity (removal notice overtaking the subscribe reply: stale subscription) was found by the thread-level oracle and repaired by a fix: commit.",
+    technique="per-signal protocol invariant over a two-node transition system; H2 simulation + deterministic scheduler"),
 }
 
-REASONS = {}
+REASONS = {"C17": "package being built (model of header codec, datastore, recorder; see DESIGN.md 7 C17) - will be claimed as partial"}
 
 def main():
     checks, na = [], []
